@@ -53,6 +53,17 @@ func (d *Dimension) Delete(key Key) {
 	}
 }
 
+// copyKeys returns a snapshot of the keys that stays valid while the
+// dimension is modified (Delete shifts the backing array in place)
+func (d *Dimension) copyKeys() []Key {
+	d.m.RLock()
+	defer d.m.RUnlock()
+
+	res := make([]Key, len(d.keys))
+	copy(res, d.keys)
+	return res
+}
+
 type advanceResult int
 
 const (
@@ -106,7 +117,7 @@ func Intersection(input ...*Dimension) []Key {
 	if len(input) == 0 {
 		return []Key{}
 	} else if len(input) == 1 {
-		return input[0].keys
+		return input[0].copyKeys()
 	}
 
 	result := []Key{}
@@ -165,7 +176,7 @@ func Union(input ...*Dimension) []Key {
 	if len(input) == 0 {
 		return []Key{}
 	} else if len(input) == 1 {
-		return input[0].keys
+		return input[0].copyKeys()
 	}
 
 	result := []Key{}
